@@ -80,7 +80,7 @@ def signed(x, bits):
 
 
 class Alloc:
-    __slots__ = ('base', 'size', 'cells', 'live', 'kind', 'owner', 'name', 'align')
+    __slots__ = ('base', 'size', 'cells', 'live', 'kind', 'owner', 'name', 'align', 'dead')
 
     def __init__(s, base, size, kind, owner, name=None, fill=None, align=1):
         s.base = base
@@ -91,11 +91,12 @@ class Alloc:
         s.owner = owner
         s.name = name
         s.align = align
+        s.dead = None        # z3 Bool: freed under this condition (symbolic pointer / joined paths)
 
     def clone(s, owner):
         a = Alloc.__new__(Alloc)
         a.base = s.base; a.size = s.size; a.cells = list(s.cells); a.live = s.live
-        a.kind = s.kind; a.owner = owner; a.name = s.name; a.align = s.align
+        a.kind = s.kind; a.owner = owner; a.name = s.name; a.align = s.align; a.dead = s.dead
         return a
 
 
@@ -109,6 +110,7 @@ class Memory:
         s.vm = vm
         s.id = next(_mem_ids)
         s.pages = {}
+        s.st = None         # the state this memory belongs to (for checks that need its path condition)
         s.wlog = None       # optional list of (base, off, n) writes
 
     def fork(s):
@@ -117,6 +119,7 @@ class Memory:
         m.id = next(_mem_ids)
         s.id = next(_mem_ids)       # both sides now share every Alloc: both must copy on write
         m.pages = dict(s.pages)
+        m.st = None
         m.wlog = list(s.wlog) if s.wlog is not None else None
         return m
 
@@ -142,6 +145,8 @@ class Memory:
                 'write' if write else 'read', n, addr, s.describe(addr)))
         if not a.live:
             raise Terminal('memerr', "use after free: %d bytes at %#x%s" % (n, addr, s.describe(addr)))
+        if a.dead is not None and s.st is not None and s.vm.feasible(s.st, a.dead):
+            raise Terminal('memerr', "use after free: %d bytes at %#x%s (freed through a symbolic pointer or on a joined path)" % (n, addr, s.describe(addr)))
         if write:
             if a.kind in ('const', 'fn'):
                 raise Terminal('memerr', "write to constant memory at %#x%s" % (addr, s.describe(addr)))
@@ -177,12 +182,30 @@ class Memory:
         if s.wlog is not None:
             s.wlog.append((a.base, off, n))
 
+    def free_guarded(s, addr, cond):
+        """free(addr) that happens only under cond"""
+        a = s.lookup(addr)
+        if a is None or a.base != addr or a.kind != 'heap':
+            raise Terminal('memerr', "free of a pointer that is not a heap allocation: %#x%s" % (addr, s.describe(addr)))
+        if not a.live:
+            raise Terminal('memerr', "double free at %#x" % addr)
+        if a.dead is not None and s.st is not None and s.vm.feasible(s.st, z3.And(a.dead, cond)):
+            raise Terminal('memerr', "double free at %#x" % addr)
+        if a.owner != s.id:
+            a = a.clone(s.id)
+            for pg in range(a.base >> PAGE, ((a.base + max(a.size, 1) - 1) >> PAGE) + 1):
+                s.pages[pg] = a
+        a.dead = cond if a.dead is None else z3.Or(a.dead, cond)
+        return a
+
     def free(s, addr):
         a = s.lookup(addr)
         if a is None or a.base != addr or a.kind != 'heap':
             raise Terminal('memerr', "free of a pointer that is not a heap allocation: %#x%s" % (addr, s.describe(addr)))
         if not a.live:
             raise Terminal('memerr', "double free at %#x" % addr)
+        if a.dead is not None and s.st is not None and s.vm.feasible(s.st, a.dead):
+            raise Terminal('memerr', "double free at %#x (already freed through a symbolic pointer or on a joined path)" % addr)
         if a.owner != s.id:
             a = a.clone(s.id)
             for pg in range(a.base >> PAGE, ((a.base + max(a.size, 1) - 1) >> PAGE) + 1):
@@ -308,6 +331,7 @@ class State:
     def __init__(s, vm):
         s.vm = vm
         s.mem = Memory(vm)
+        s.mem.st = s
         s.frames = []
         s.pc = []
         s.model = None
@@ -329,6 +353,7 @@ class State:
         t = State.__new__(State)
         t.vm = s.vm
         t.mem = s.mem.fork()
+        t.mem.st = t
         t.frames = [f.fork() for f in s.frames]
         t.pc = list(s.pc)
         t.model = s.model
@@ -1576,6 +1601,7 @@ def merge_states(vm, base, rets, bits):
     acc = rets[-1].st.fork()
     acc.pc = list(base.pc)
     acc.pc.append(z3.simplify(z3.Or(*guards)))
+    acc.mem.st = acc
     acc.model = None
     acc.known = dict(base.known)
     acc.cand = dict(base.cand)
@@ -1599,8 +1625,13 @@ def merge_states(vm, base, rets, bits):
             for p2 in range(x.base >> PAGE, ((x.base + max(x.size, 1) - 1) >> PAGE) + 1):
                 am.pages[p2] = x
             continue
-        if any(x.live != first.live or x.size != first.size for x in objs):
+        if any(x.size != first.size for x in objs):
             return None
+        deads = [z3.BoolVal(True) if not x.live else (x.dead if x.dead is not None else z3.BoolVal(False)) for x in objs]
+        if any(x.live != first.live or (x.dead is not None) for x in objs):
+            dmerged = z3.simplify(z3.Or(*[z3.And(g, d) for g, d in zip(guards, deads)]))
+        else:
+            dmerged = None
         cells = list(objs[-1].cells)
         for k in reversed(range(len(objs) - 1)):
             if objs[k] is objs[-1] and k == len(objs) - 2 and False:
@@ -1608,6 +1639,13 @@ def merge_states(vm, base, rets, bits):
             cells = merge_cells(guards[k], objs[k].cells, cells, acc)
         na = objs[-1].clone(am.id)
         na.cells = cells
+        if dmerged is not None:
+            if z3.is_true(dmerged):
+                na.live = False; na.dead = None
+            elif z3.is_false(dmerged):
+                na.live = True; na.dead = None
+            else:
+                na.live = True; na.dead = dmerged
         for p2 in range(na.base >> PAGE, ((na.base + max(na.size, 1) - 1) >> PAGE) + 1):
             am.pages[p2] = na
     val = rets[-1].value
